@@ -7,6 +7,36 @@ BUILT = {
  "C01": dict(cat="exploration", tech="deterministic simulation: seeded workload + RNG fault injection (FaultRng), byte-budget bounded liveness, real Ristretto and free-module group",
    text="Seeded simulation of prover nodes handed healthy and failing external RNG streams (all-zero, all-ones, constant, short-period, counter, stuck-after-n, replayed), across the configuration lattice (bits 1..64, aggregation 1..32, capacity > m, extension degree 1..6, boundary values, promises, seeds), each proof verified in all three modes alone and inside a batch. Completeness is an identity, so sampling diverse configurations under every RNG failure mode with a byte budget for prover termination is the level that fits: it decides the RNG-quantified part of the statement, which unit tests with one healthy RNG cannot.",
    note="Trusted: FreePoint is a faithful free-module stand-in for the group (every class of run also executes on real Ristretto); sampling, not proof; zero challenge (2^-252) ignored.", ref="5/C01"),
+ "C02": dict(cat="exploration", tech="deterministic simulation: hostile channel + adversarial proof crafting over a simulator-owned free-module group; Fiat-Shamir challenges tapped at the merlin seam; independent paper-form reference verifier as oracle on every verification",
+   text="Every verification a simulated verifier performs (honest, channel-faulted and adversarially crafted proofs, singly and in batches) is compared with an independent unoptimised evaluation of the published relation at the challenges the library actually drew: over the free module the verifier's residual must equal w * reference residual coefficient by coefficient (so a generator or proof element weighted differently shows up on its own coordinate), on Ristretto the verdicts must agree, shape defects must be refused. This decides 'the implemented linear combination is the published one' at sampled challenge points; it has no interleaving dimension and does not prove knowledge soundness of the protocol.",
+   note="Trusted: refmodel.rs (harness's reading of the paper / RFC-0181), FreePoint as a faithful group, tapped challenges (transcript layout is C04), vector generators taken from the parameters (C11).", ref="5/C02"),
+ "C04": dict(cat="fault_enumeration", tech="deterministic simulation: single-datum message faults enumerated over every transcript input position; transcript event log recorded at the merlin seam; oracle over the two recorded challenge histories",
+   text="For each sampled accepted message every datum that can be perturbed singly (context label/data, H, each G_k, bit length, each commitment, each promise, commitment order, A, each L_j, each R_j, A1, B) is faulted; verifier (and prover where possible) run with the tap on; every challenge drawn after the datum must differ, earlier ones must not; prover and verifier sequences on the honest message must be equal. Exhaustive over positions per message, sampled over messages.",
+   note="Challenges identified by ordinal; aggregation factor and extension degree cannot be perturbed alone through the public API (gap: omission of M or T alone is not detected); hash collisions ignored.", ref="5/C04"),
+ "C05": dict(cat="fault_enumeration", tech="deterministic simulation: hostile channel applying every single-component fault (position x replacement kind) to accepted messages; verdict oracle under catch_unwind",
+   text="For each sampled accepted message EVERY single-component fault is applied (each proof scalar/point x 5 replacement kinds + bit flips, round count +-1, extension tag +-1 with/without length repair, truncation/extension, each commitment x 4, each pair swap, each promise x 5, bit length x2 and /2, H and each G_k x {point, encoding, both}, context) and delivered through from_bytes and the validating constructors; the result must be an error value: never Ok, never a panic, in VerifyOnly and RecoverAndVerify. Exhaustive over fault positions per message; messages sampled across the lattice with ext 4-6 and m=8 guaranteed.",
+   note="Rejection required up to 2^-252; capacity changes are not alterations (C12); zero-round proofs excluded from the byte path (decoder refuses them).", ref="5/C05"),
+ "C08": dict(cat="exploration", tech="deterministic simulation: adaptive multi-round adversary against the batch verifier; combination factors read from the MSM seam of the free-module group after every run",
+   text="An adversary stronger than any real one plays 8-64 round games: after each verification run it reads the factors actually used from the verifier's final multiscalar multiplication and chooses offsets on d1[k] of two (or three) members that cancel exactly if the factors do not move, optionally touching r1/s1, permuting or resubmitting. Invariants after every submission: a batch with an invalid member is rejected, every factor is non-zero, the ratio w_i/w_j changes whenever a response scalar of i or j changed.",
+   note="Factors observable only over the free module (real verifier code, stub group); accidental cancellation 2^-252.", ref="5/C08"),
+ "C11": dict(cat="exploration", tech="deterministic simulation: Miri's seeded scheduler over real threads racing first use of the two lazily initialised statics (data-race detector on), seeded construction orders, fresh-process first-use orders; reference derivation as oracle",
+   text="Schedule part: 2-4 real threads race the first use of both statics under Miri, one -Zmiri-seed = one schedule, three preemption rates; every thread's generators are compared with a reference derivation and Miri reports any data race. Native part: seeded construction orders over (bits, capacity) <= (64,32) x ext 1..6 on Ristretto and the free module: all points equal the documented derivation, pairwise distinct, non-identity, compressed forms equal encodings, precomputed table equals the interleaved vector (random linear combination). Fresh-process part: first use in different orders.",
+   note="Reference derivation is the harness's reading of doc comments / RFC-0181; dalek's hash-to-group shared; Miri's scheduler granularity (basic blocks) and memory model trusted.", ref="5/C11"),
+ "C12": dict(cat="exploration", tech="deterministic simulation: configuration skew between simulated prover and verifier nodes (table capacity randomised per node), equal-capacity baseline as reference",
+   text="Each prover node and each verifier node draws its own capacity >= m; every message (valid or corrupted) is verified by >= 3 nodes of different capacity in all modes, alone and inside batches whose members carry different capacities; verdicts and masks must equal the equal-capacity baseline; generator (i, j) must be identical across capacities.",
+   note="Baseline is the library's own equal-capacity verdict; FreePoint faithful (1 run in 4 on Ristretto).", ref="5/C12"),
+ "C13": dict(cat="exploration", tech="deterministic simulation: histories of prover runs under different seeded RNG streams; nonces read as free-module coordinates (group seam) gated by self-checks; nonce ledger + reference nonce function as oracles",
+   text="Histories of 12-120 prover runs over few statements (same statement re-proved under different streams, different witnesses, with/without seed, one seed shared by statements); all ext*(2*rounds+3)+2 nonces of every proof are extracted as coordinates; oracles: non-zero, pairwise distinct within a proof, RNG-derived ones never repeated across runs with different streams, seed-derived ones equal the documented keyed BLAKE2b function.",
+   note="Nonces observable only over the free module; 'unpredictable' decided as freshness/distinctness + documented derivation (dependence on the witness under RNG failure is C14).", ref="5/C13"),
+ "C14": dict(cat="fault_enumeration", tech="deterministic simulation: RNG fault injection (all-zero, all-ones, constant, short-period, counter, stuck, replayed) with paired prover runs served the same faulty stream; degenerate generators make two witnesses share one commitment; public-computability oracle replays the tapped transcript",
+   text="Fault modes x pair kinds (identical; same commitment with shifted blindings under G_0=G_1; same commitment with traded value under H=G_0; context / promise / commitment / bit length differs) x {seed, no seed} are enumerated round-robin; both runs get the SAME stream. Identical runs must reproduce bit for bit; different runs must share no RNG-derived nonce; within a run distinctness still holds; no nonce may equal any value computable at any RNG rebuild point from the recorded public transcript plus the known stream without the witness; the prover must finish within the RNG byte budget.",
+   note="Observable only over the free module; the public-computability oracle covers the concrete attacker who evaluates the same transcript-RNG construction without the witness, not pseudorandomness of STROBE.", ref="5/C14"),
+ "C16": dict(cat="exploration", tech="deterministic simulation: hostile channel delivering the cross product of proof, statement and batch shapes in child processes with write-ahead run ids; allocator seam and deterministic work counter as resource oracles",
+   text="Seeded hostile deliveries (extension tag 0..8/255, rounds up to 2000 and fit+-1, lengths off by 1/31/32/33, identity/undecodable/non-canonical/all-ones elements, statement shapes incl. capacity > m and shapes the constructors must refuse, batch shapes with mixed bits/ext/capacity, a member repeated across the 256 chunk limit, unequal sequence lengths, empty, honest proofs with stacked channel faults, random bytes) in all modes; oracles: no panic under catch_unwind (overflow checks on), child process exits normally (abort attributed through the write-ahead file), allocation peak (Ristretto) and scalar-point work (free module) linear in input size. Two thirds of the runs on Ristretto because dalek's backend assertions are the hazard.",
+   note="Statements built through the validating constructors only; allocation bound 4 KiB per input unit + 1 MiB; wall-clock is only a watchdog.", ref="5/C16"),
+ "C18": dict(cat="exploration", tech="deterministic simulation: operation-level seeded scheduler interleaving logical clients over shared parameter objects (two interleavings + repetition + injected crashes + fresh-process baseline), and Miri's seeded scheduler over real threads with race detection",
+   text="Native: 3-6 logical clients with scripts of self-contained operations over a shared pool of parameter objects; the same scripts run under two seeded interleavings, each operation is repeated, 10% of prover operations crash via an injected RNG panic and the following operations must be served unaffected; sampled operations also run first in a fresh process; an operation's result digest must be a function of its descriptor only. Schedule: Miri interprets 2-3 real threads racing first use of the statics, sharing one precomputed table, and (thorough) proving/verifying concurrently, compared with a single-threaded reference.",
+   note="Operation-level atomicity assumed in the native part (the shared state that exists is inside the Miri scenarios); full-protocol Miri schedules are few (2.5 min each) and thorough-only.", ref="5/C18"),
  "C03": dict(cat="exploration", tech="deterministic simulation: seeded scheduler of a verifier node decides batch membership, size and order over a duplicated/reordered message pool; refinement against the sequential reference model (one-at-a-time verification)",
    text="A simulated verifier node drains a pool of valid and defective messages; the seeded scheduler decides which members form a batch, how many (1..1100, concentrated on 255/256/257/511/512/513), with what repetition, in what order and in which mode. Oracle: batch Ok iff every member's singleton verdict is Ok, exactly k results, result i equal to member i's singleton mask; malformed shapes (empty, unequal sequence lengths, a member that disagrees on bits / extension degree / H / G_k but is valid on its own) are refused. Sizes beyond the chunk limit and invalid members placed beyond it are reached in every quick run (probe counters enforce it).",
    note="Reference verdict of a member is the library's own singleton verification (soundness of that is C02); FreePoint faithful (1 run in 5 on Ristretto); weights do not cancel by accident (2^-252).", ref="5/C03"),
@@ -25,7 +55,7 @@ NA = {
  "C19": "regression against recorded vectors and differential testing against an independent implementation of pure functions: no schedule, fault or history in it",
 }
 
-PENDING = {'C02': 'check planned (DESIGN.md section 5) but not built yet; will be claimed when its check exists', 'C04': 'check planned (DESIGN.md section 5) but not built yet; will be claimed when its check exists', 'C05': 'check planned (DESIGN.md section 5) but not built yet; will be claimed when its check exists', 'C08': 'check planned (DESIGN.md section 5) but not built yet; will be claimed when its check exists', 'C11': 'check planned (DESIGN.md section 5) but not built yet; will be claimed when its check exists', 'C12': 'check planned (DESIGN.md section 5) but not built yet; will be claimed when its check exists', 'C13': 'check planned (DESIGN.md section 5) but not built yet; will be claimed when its check exists', 'C14': 'check planned (DESIGN.md section 5) but not built yet; will be claimed when its check exists', 'C16': 'check planned (DESIGN.md section 5) but not built yet; will be claimed when its check exists', 'C18': 'check planned (DESIGN.md section 5) but not built yet; will be claimed when its check exists'}  # id -> reason, for properties planned but whose check is not built yet
+PENDING = {}  # id -> reason, for properties planned but whose check is not built yet
 
 def main():
     checks = []
